@@ -480,15 +480,15 @@ func TestVerifC08(t *testing.T) {
 	line := func(parts ...string) { f.WriteString(strings.Join(parts, "\t") + "\n") }
 
 	// the collection sweep (zz_verif_c08_sweep_test.go), the value-space families (zz_verif_c08_values_test.go) and the
-	// schedule families (zz_verif_c08_conc_test.go) and the process-history family (zz_verif_c08_hist_test.go), each in one
+	// related-values families (zz_verif_c08_alias_test.go), the schedule families (zz_verif_c08_conc_test.go) and the process-history family (zz_verif_c08_hist_test.go), each in one
 	// child process of its own; their lines are copied
-	for _, mode := range []string{"sweep", "values", "conc", "hist"} {
+	for _, mode := range []string{"sweep", "values", "alias", "conc", "hist"} {
 		if only := os.Getenv("VERIF_C08_ONLY"); only != "" && only != mode {
 			continue
 		}
 		root, _ := os.MkdirTemp(base, mode+"-")
 		report := filepath.Join(base, mode+".tsv")
-		run := map[string]string{"sweep": "^TestVerifC08Sweep$", "values": "^TestVerifC08Values$", "conc": "^TestVerifC08Conc$", "hist": "^TestVerifC08Hist$"}[mode]
+		run := map[string]string{"sweep": "^TestVerifC08Sweep$", "values": "^TestVerifC08Values$", "alias": "^TestVerifC08Alias$", "conc": "^TestVerifC08Conc$", "hist": "^TestVerifC08Hist$"}[mode]
 		cmd := exec.Command(self, "-test.run", run, "-test.count=1")
 		cmd.Env = append(os.Environ(), "VERIF_C08_CHILD="+mode, "VERIF_ROOT="+root, "VERIF_REPORT="+report, "GOMAXPROCS=8")
 		done := make(chan error, 1)
